@@ -335,6 +335,19 @@ func weightsMap(ws []int) map[string]string {
 		case 3:
 			meta = fmt.Sprintf("weight=%d&xweight=%d", w, w+5)
 		}
+		if w == 1 {
+			// weight 1 is also what a server gets that announces no usable weight at all
+			switch (i*3 + len(ws)) % 5 {
+			case 1:
+				meta = ""
+			case 2:
+				meta = "group=g1&state=active"
+			case 3:
+				meta = "weight=x"
+			case 4:
+				meta = "weight=&tps=5"
+			}
+		}
 		m[fmt.Sprintf("tcp@s%d:1", i)] = meta
 	}
 	return m
